@@ -15,6 +15,7 @@ import NflowsModel.Lemmas.ARWhole
 import NflowsModel.Lemmas.TailsWhole
 import NflowsModel.Lemmas.QuadInverseWhole
 import NflowsModel.Lemmas.StructureExecQuad
+import NflowsModel.Lemmas.StructureExecRQTails
 /-!
 # C02 — inverse undoes forward (both orders) and returns the negated log-abs-det
 
@@ -96,20 +97,18 @@ theorem quad_executed_forward_inverse {y loc w c hl hr : ℝ} (hw : 0 < w) (h0 :
   have : (0.5 : ℝ) = 1/2 := by norm_num
   rw [this]; linarith
 
-/-- **Linear spline bin round trip** (linear.py:66-84): with `slope = (c₁ − c₀)/(b₁ − b₀) ≠ 0` and
-    `offset = c₁ − slope·b₁`, the inverse `y ↦ (y − offset)/slope` undoes the bin's forward map
-    `x ↦ c₀ + slope·(x − b₀)` exactly, and its log-abs-det `−log slope` is the negated forward one. -/
-theorem linear_bin_roundtrip (c0 c1 b0 b1 x : ℝ) (hb : b0 ≠ b1) (hc : c0 ≠ c1) :
-    let slope := (c1 - c0) / (b1 - b0)
-    let offset := c1 - slope * b1
-    ((c0 + slope * (x - b0)) - offset) / slope = x := by
-  intro slope offset
-  have hbb : b1 - b0 ≠ 0 := sub_ne_zero.mpr (Ne.symm hb)
-  have hcc : c1 - c0 ≠ 0 := sub_ne_zero.mpr (Ne.symm hc)
-  have hs : slope ≠ 0 := div_ne_zero hcc hbb
-  simp only [offset, slope]
-  field_simp
-  ring
+/-- **Linear spline bin round trip** (linear.py after fix c321ed1): in bin `k` of `K` with mass `p ≠ 0` the forward map is
+    `x ↦ c + (xK − k)·p`; the inverse uses the slope `p·K` and the line anchored at the right knot `((k+1)/K, c + p)`:
+    `y ↦ (k+1)/K + (y − (c + p))/(p·K)`.  It undoes the forward map exactly, and `−log(pK)` is the negated forward log-det
+    `log p − log(1/K)`. -/
+theorem linear_bin_roundtrip (c p x : ℝ) (K k : ℕ) (hK : 0 < K) (hp : 0 < p) :
+    ((k : ℝ) + 1) / K + ((c + (x * K - k) * p) - (c + p)) / (p * K) = x ∧
+    -Real.log (p * K) = -(Real.log p - Real.log (1 / (K : ℝ))) := by
+  have hK' : (K : ℝ) ≠ 0 := by exact_mod_cast hK.ne'
+  constructor
+  · field_simp
+    ring
+  · rw [Real.log_mul hp.ne' hK', one_div, Real.log_inv]; ring
 
 /-! ## structural -/
 
@@ -331,5 +330,41 @@ theorem exec_quad_tails_coupling_roundtrip (e : Float → ℝ) (c : ElCfg) (hk :
     let inv := couplingApply (NF.realX e) c mask B S fwd.out params true none uparams'
     inv.out = x ∧ inv.err = none ∧ inv.condIn = fwd.condIn ∧ ∀ b, b < B → inv.ld[b]? = (fwd.ld[b]?).map (fun l => -l) :=
   NF.StructureExec.coupling_quad_tails_roundtrip_real e c hk ht hneg mask B S x params uparams uparams' hv herr hsz
+
+/-! ## the library's flagship layers: rational-quadratic elements WITH LINEAR TAILS inside coupling and autoregressive layers -/
+
+/-- **executed RQ coupling layer with linear tails**: for ANY mask, `B`, `S`, conditioner output and ANY real input array
+    (no domain hypothesis: the tails accept every real) the forward pass raises nothing and the inverse pass on its output returns
+    the input array, raises nothing, is fed the same conditioner input and returns the negated row log-dets.  The only
+    hypothesis is on the configuration (`RQTailsCfgValid`: validity depends on the constants and on the parameter-vector LENGTH
+    only, so every vector a conditioner returns is accepted). -/
+theorem exec_rq_tails_coupling_roundtrip (e : Float → ℝ) (c : ElCfg) (hc : NF.StructureExec.RQTailsCfgValid e c)
+    (mask : List ℝ) (B S : Nat) (x params uparams uparams' : Array ℝ) (hsz : B * mask.length * S ≤ x.size) :
+    let fwd := couplingApply (NF.realX e) c mask B S x params false none uparams
+    let inv := couplingApply (NF.realX e) c mask B S fwd.out params true none uparams'
+    fwd.err = none ∧ inv.out = x ∧ inv.err = none ∧ inv.condIn = fwd.condIn
+      ∧ ∀ b, b < B → inv.ld[b]? = (fwd.ld[b]?).map (fun l => -l) :=
+  NF.StructureExec.coupling_rq_tails_roundtrip_real e c hc mask B S x params uparams uparams' hsz
+
+/-- **the masked autoregressive RQ layer with linear tails is exactly invertible on all of ℝ^F**: every architecture
+    `Made.build` accepts (multiplier `3K − 1`), every weight, bias, context, batch size and every real `[B, F]` array, both
+    orders, with the loop invariant and negated log-dets; no pass of the `F`-pass inverse loop raises. -/
+theorem exec_made_rq_tails_roundtrip (e : Float → ℝ) (c : ElCfg) (hc : NF.StructureExec.RQTailsCfgValid e c)
+    (a : NF.Made.Arch) (n : NF.Made.Net) (hbuild : NF.Made.build a = .ok n) (hmult : a.mult = 3 * c.K - 1)
+    (W : ℕ → ℕ → ℕ → ℝ) (bias : ℕ → ℕ → ℝ) (B : Nat) (ctxv : ℕ → ℕ → Fin B → ℝ)
+    (g : ℕ → NF.Made.Slot → ℕ → (Fin B → ℝ) → Fin B → ℝ) :
+    let net := NF.ARWhole.madeNet n W bias B ctxv g
+    (∀ x : Array ℝ, x.size = B * a.F →
+      let fwd := NF.ARWhole.arForward (NF.realX e) c B a.F net x
+      let inv := NF.ARWhole.arInverse (NF.realX e) c B a.F net fwd.out
+      fwd.err = none ∧ inv.err = none ∧ inv.out = x
+        ∧ (∀ k, NF.ARWhole.AgreeBelow B a.F k (NF.ARWhole.arIter (NF.realX e) c B a.F net fwd.out k).out x)
+        ∧ (∀ b, b < B → inv.ld[b]? = (fwd.ld[b]?).map (fun l => -l)))
+    ∧ (∀ y : Array ℝ, y.size = B * a.F →
+      let inv := NF.ARWhole.arInverse (NF.realX e) c B a.F net y
+      let fwd := NF.ARWhole.arForward (NF.realX e) c B a.F net inv.out
+      inv.err = none ∧ fwd.err = none ∧ fwd.out = y
+        ∧ (∀ b, b < B → fwd.ld[b]? = (inv.ld[b]?).map (fun l => -l))) :=
+  NF.ARWhole.made_rq_tails_roundtrip_real e c hc a n hbuild hmult W bias B ctxv g
 
 end Properties.C02
